@@ -42,6 +42,11 @@ class Runner:
         main, stm = self.main, self.stm
         main.reset()
         main.current_tt = main.main_tt
+        # cases must be independent: empty any mutable CLASS-level container of the classes under test
+        for cls in (stm.Condition, stm.FlowVar, stm.Routine, stm.TimeThread):
+            for v in vars(cls).values():
+                if isinstance(v, (list, dict, set)):
+                    v.clear()
         self.case = case
         self.log, self.xlog = [], []
         self.last_res = None
@@ -278,12 +283,12 @@ class Runner:
         t = main.main_tt._m_seconds
         q = ''.join(f'({int(tm) if tm == int(tm) else tm},{self.idx.get(id(ct.task), "?")})'
                     for tm, ct in main._clock_scheduler.queue)
-        cs = [f'c{i}={"T" if c._test else "F"}[{" ".join(str(self.idx[id(x)]) for x in c._waiting_threads)}]'
+        cs = [f'c{i}={"T" if c._test else "F"}[{" ".join(str(self.idx.get(id(x), "?")) for x in c._waiting_threads)}]'
               for i, c in enumerate(self.conds)]
         fs = []
         for i, f in enumerate(self.fvs):
             v = 'U' if f._value is stm.FlowVar._UNBOUND else self.enc(f._value)
-            fs.append(f'f{i}={v}[{" ".join(str(self.idx[id(x)]) for x in f.condition._waiting_threads)}]')
+            fs.append(f'f{i}={v}[{" ".join(str(self.idx.get(id(x), "?")) for x in f.condition._waiting_threads)}]')
         return (';'.join(rs) + f'|cur={self.tt_name(main.current_tt)}|t={int(t) if t == int(t) else t}|q={q}|'
                 + ';'.join(cs) + '|' + ';'.join(fs))
 
@@ -347,12 +352,44 @@ class Runner:
         return out
 
 
+CASE_TIMEOUT = 20       # wall-clock seconds for one history (normally a few ms)
+
+
+class Hang(BaseException):
+    pass
+
+
+def _alarm(signum, frame):
+    raise Hang()
+
+
 def run_case(case):
-    r = Runner(case)
-    outs = [r.xop(x) for x in case['ops']]
+    """A crash or a hang of the implementation under test is an OBSERVATION (a `CRASH:` / `HANG` result line
+    for the op it happened in, and for the ops that could not be run), never a failure of the runner."""
+    import signal
+    outs = []
+    signal.signal(signal.SIGALRM, _alarm)
+    signal.setitimer(signal.ITIMER_REAL, CASE_TIMEOUT)
+    r = None
+    try:
+        r = Runner(case)
+        for x in case['ops']:
+            outs.append(r.xop(x))
+    except Hang:
+        outs.append({'line': f'HANG:no answer within {CASE_TIMEOUT} s||', 'x': []})
+    except BaseException as e:       # incl. failures of the snapshot itself
+        outs.append({'line': f'CRASH:{type(e).__name__}:{str(e)[:80]}||', 'x': []})
+    finally:
+        signal.setitimer(signal.ITIMER_REAL, 0)
+    while len(outs) < len(case['ops']):
+        outs.append({'line': 'CRASH:not run||', 'x': []})
     # break reference cycles between generators and routines before the next case
-    for rt in r.R:
-        rt._iterator = None
+    if r is not None:
+        for rt in r.R:
+            try:
+                rt._iterator = None
+            except Exception:
+                pass
     return outs
 
 
